@@ -373,7 +373,7 @@ pub fn run(ctx: &Ctx) -> Outcome {
     let mut per = vec![];
     for incoming in [true, false] {
         let sc = Upload { incoming };
-        let depth = ctx.tier.pick(8, 10);
+        let depth = ctx.tier.pick(8, 13);
         let st = explore::bfs(ctx, &sc, depth, ctx.tier.pick(40, 20));
         per.push(json!({"scenario": Scenario::name(&sc), "depth": depth, "states": st.states, "transitions": st.transitions, "depth_completed": st.depth_completed}));
         bfs_total.merge(&st);
